@@ -44,7 +44,7 @@ Qed.
 Theorem task_sheet_roundtrip : forall s,
   (forall t, In t (so_tasks s) -> 1 <= ts_end t - ts_start t) ->
   map bar_decode (task_sheet s)
-  = map (fun '(i, t) => (S i, join "," (ts_assigned t), ts_start t, ts_end t)) (indexed 0 (so_tasks s)).
+  = map (fun '(i, t) => (S i, join "," (map resobj_name (ts_assigned t)), ts_start t, ts_end t)) (indexed 0 (so_tasks s)).
 Proof.
   intros s H. unfold task_sheet. rewrite map_map. apply map_ext_in. intros [i t] Hin. apply bar_roundtrip.
   apply H. eapply indexed_in; eauto.
